@@ -1,7 +1,8 @@
 (* C16: syntax trees of the REAL parser (dumps of harness/src/eng_lints.rs pasted through the
-   interchange format), used as witnesses for the refutations and the non-vacuity examples of
+   interchange format), used as witnesses for the regression theorems and the non-vacuity examples of
    Properties/C16.v.  Each definition is preceded by its source text and by the report the real
-   server gives for it (classes of C16 only).  Definitions only. *)
+   server gives for it (classes of C16 only), with the checkers as repaired for D15-D19 and, where it
+   differs, as they were before.  Definitions only. *)
 From GoldV Require Import Base Tokens Lexer AstKinds Tree.
 
 (* source text (aCase.god):
@@ -143,7 +144,7 @@ Definition w_passlit : node :=
      proc Init
        inherited other.Init
      endproc
-   real report (C16 classes): (none) *)
+   real report (C16 classes) with the repaired checkers: INH:2:1:5:1:9:73.110.105.116; before the repair (D15): (none) *)
 Definition w_inhother : node :=
   Node KAstRoot [] 0 (mkRange (mkPos 0 0) (mkPos 0 0)) [] [
 (Node KAstClass [97;67;97;115;101] 0 (mkRange (mkPos 0 0) (mkPos 0 11)) [(1, AT (mkTok 6 (mkRange (mkPos 0 6) (mkPos 0 11)) TIdentifier [97;67;97;115;101])); (2, AL [])] []);
@@ -161,7 +162,8 @@ Definition w_inhother : node :=
        var v : tVarByteArray
        var v : tVarByteArray
      endproc
-   real report (C16 classes): PURGE:2:3:6:3:7:118 *)
+   real report (C16 classes) with the repaired checkers: PURGE:2:2:6:2:7:118;PURGE:2:3:6:3:7:118;
+   before the repair (D16): PURGE:2:3:6:3:7:118 *)
 Definition w_dup : node :=
   Node KAstRoot [] 0 (mkRange (mkPos 0 0) (mkPos 0 0)) [] [
 (Node KAstClass [97;67;97;115;101] 0 (mkRange (mkPos 0 0) (mkPos 0 11)) [(1, AT (mkTok 6 (mkRange (mkPos 0 6) (mkPos 0 11)) TIdentifier [97;67;97;115;101])); (2, AL [])] []);
@@ -179,7 +181,7 @@ Definition w_dup : node :=
        Purge(v)
        var v : tVarByteArray
      endproc
-   real report (C16 classes): PURGE:2:3:6:3:7:118 *)
+   real report (C16 classes) with the repaired checkers: (none); before the repair (D17): PURGE:2:3:6:3:7:118 *)
 Definition w_early : node :=
   Node KAstRoot [] 0 (mkRange (mkPos 0 0) (mkPos 0 0)) [] [
 (Node KAstClass [97;67;97;115;101] 0 (mkRange (mkPos 0 0) (mkPos 0 11)) [(1, AT (mkTok 6 (mkRange (mkPos 0 6) (mkPos 0 11)) TIdentifier [97;67;97;115;101])); (2, AL [])] []);
@@ -197,7 +199,7 @@ Definition w_early : node :=
        var v : tVarByteArray
        Purge('v')
      endproc
-   real report (C16 classes): (none) *)
+   real report (C16 classes) with the repaired checkers: PURGE:2:2:6:2:7:118; before the repair (D18): (none) *)
 Definition w_arglit : node :=
   Node KAstRoot [] 0 (mkRange (mkPos 0 0) (mkPos 0 0)) [] [
 (Node KAstClass [97;67;97;115;101] 0 (mkRange (mkPos 0 0) (mkPos 0 11)) [(1, AT (mkTok 6 (mkRange (mkPos 0 6) (mkPos 0 11)) TIdentifier [97;67;97;115;101])); (2, AL [])] []);
@@ -214,7 +216,7 @@ Definition w_arglit : node :=
      proc Init
      endproc
      Fld : int4 absolute pass
-   real report (C16 classes): (none) *)
+   real report (C16 classes) with the repaired checkers: INH:2:1:5:1:9:73.110.105.116; before the repair (D19): (none) *)
 Definition w_leak : node :=
   Node KAstRoot [] 0 (mkRange (mkPos 0 0) (mkPos 0 0)) [] [
 (Node KAstClass [97;67;97;115;101] 0 (mkRange (mkPos 0 0) (mkPos 0 11)) [(1, AT (mkTok 6 (mkRange (mkPos 0 6) (mkPos 0 11)) TIdentifier [97;67;97;115;101])); (2, AL [])] []);
@@ -240,4 +242,184 @@ Definition w_leak2 : node :=
 (Node KAstProcedure [73;110;105;116] 37 (mkRange (mkPos 2 0) (mkPos 3 7)) [(5, AL [(mkTok 47 (mkRange (mkPos 3 0) (mkPos 3 7)) TEndProc [101;110;100;112;114;111;99])]); (6, AN 0)] [
   (Node KAstTerminal [73;110;105;116] 42 (mkRange (mkPos 2 5) (mkPos 2 9)) [(0, AT (mkTok 42 (mkRange (mkPos 2 5) (mkPos 2 9)) TIdentifier [73;110;105;116]))] []);
   (Node KAstMethodBody [109;101;116;104;111;100;95;98;111;100;121] 42 (mkRange (mkPos 2 5) (mkPos 2 9)) [] [])])].
+
+(* source text (aCase.god):
+     class aCase
+     proc Init
+       inherited x.y.Init
+     endproc
+   real report (C16 classes) with the repaired checkers: INH:2:1:5:1:9:73.110.105.116
+   before the repair: (none) *)
+Definition w_inhchain : node :=
+  Node KAstRoot [] 0 (mkRange (mkPos 0 0) (mkPos 0 0)) [] [
+    Node KAstClass [97;67;97;115;101] 0 (mkRange (mkPos 0 0) (mkPos 0 11)) [(1, AT (mkTok 6 (mkRange (mkPos 0 6) (mkPos 0 11)) TIdentifier [97;67;97;115;101])); (2, AL [])] [];
+    Node KAstProcedure [73;110;105;116] 12 (mkRange (mkPos 1 0) (mkPos 3 7)) [(5, AL [(mkTok 43 (mkRange (mkPos 3 0) (mkPos 3 7)) TEndProc [101;110;100;112;114;111;99])]); (6, AN 0)] [
+      Node KAstTerminal [73;110;105;116] 17 (mkRange (mkPos 1 5) (mkPos 1 9)) [(0, AT (mkTok 17 (mkRange (mkPos 1 5) (mkPos 1 9)) TIdentifier [73;110;105;116]))] [];
+      Node KAstMethodBody [109;101;116;104;111;100;95;98;111;100;121] 24 (mkRange (mkPos 2 2) (mkPos 2 20)) [] [
+        Node KAstUnaryOp [105;110;104;101;114;105;116;101;100] 24 (mkRange (mkPos 2 2) (mkPos 2 20)) [(4, AT (mkTok 24 (mkRange (mkPos 2 2) (mkPos 2 11)) TInherited [105;110;104;101;114;105;116;101;100]))] [
+          Node KAstBinaryOp [46] 34 (mkRange (mkPos 2 12) (mkPos 2 20)) [(4, AT (mkTok 37 (mkRange (mkPos 2 15) (mkPos 2 16)) TDot [46]))] [
+            Node KAstBinaryOp [46] 34 (mkRange (mkPos 2 12) (mkPos 2 15)) [(4, AT (mkTok 35 (mkRange (mkPos 2 13) (mkPos 2 14)) TDot [46]))] [
+              Node KAstTerminal [120] 34 (mkRange (mkPos 2 12) (mkPos 2 13)) [(0, AT (mkTok 34 (mkRange (mkPos 2 12) (mkPos 2 13)) TIdentifier [120]))] [];
+              Node KAstTerminal [121] 36 (mkRange (mkPos 2 14) (mkPos 2 15)) [(0, AT (mkTok 36 (mkRange (mkPos 2 14) (mkPos 2 15)) TIdentifier [121]))] []];
+            Node KAstTerminal [73;110;105;116] 38 (mkRange (mkPos 2 16) (mkPos 2 20)) [(0, AT (mkTok 38 (mkRange (mkPos 2 16) (mkPos 2 20)) TIdentifier [73;110;105;116]))] []]]]]].
+
+(* source text (aCase.god):
+     class aCase
+     proc Init
+       x = inherited (a + Init)
+     endproc
+   real report (C16 classes) with the repaired checkers: INH:2:1:5:1:9:73.110.105.116
+   before the repair: (none) *)
+Definition w_inhexpr : node :=
+  Node KAstRoot [] 0 (mkRange (mkPos 0 0) (mkPos 0 0)) [] [
+    Node KAstClass [97;67;97;115;101] 0 (mkRange (mkPos 0 0) (mkPos 0 11)) [(1, AT (mkTok 6 (mkRange (mkPos 0 6) (mkPos 0 11)) TIdentifier [97;67;97;115;101])); (2, AL [])] [];
+    Node KAstProcedure [73;110;105;116] 12 (mkRange (mkPos 1 0) (mkPos 3 7)) [(5, AL [(mkTok 49 (mkRange (mkPos 3 0) (mkPos 3 7)) TEndProc [101;110;100;112;114;111;99])]); (6, AN 0)] [
+      Node KAstTerminal [73;110;105;116] 17 (mkRange (mkPos 1 5) (mkPos 1 9)) [(0, AT (mkTok 17 (mkRange (mkPos 1 5) (mkPos 1 9)) TIdentifier [73;110;105;116]))] [];
+      Node KAstMethodBody [109;101;116;104;111;100;95;98;111;100;121] 24 (mkRange (mkPos 2 2) (mkPos 2 25)) [] [
+        Node KAstBinaryOp [61] 24 (mkRange (mkPos 2 2) (mkPos 2 25)) [(4, AT (mkTok 26 (mkRange (mkPos 2 4) (mkPos 2 5)) TEquals [61]))] [
+          Node KAstTerminal [120] 24 (mkRange (mkPos 2 2) (mkPos 2 3)) [(0, AT (mkTok 24 (mkRange (mkPos 2 2) (mkPos 2 3)) TIdentifier [120]))] [];
+          Node KAstUnaryOp [105;110;104;101;114;105;116;101;100] 28 (mkRange (mkPos 2 6) (mkPos 2 25)) [(4, AT (mkTok 28 (mkRange (mkPos 2 6) (mkPos 2 15)) TInherited [105;110;104;101;114;105;116;101;100]))] [
+            Node KAstBinaryOp [43] 39 (mkRange (mkPos 2 17) (mkPos 2 25)) [(4, AT (mkTok 41 (mkRange (mkPos 2 19) (mkPos 2 20)) TPlus [43]))] [
+              Node KAstTerminal [97] 39 (mkRange (mkPos 2 17) (mkPos 2 18)) [(0, AT (mkTok 39 (mkRange (mkPos 2 17) (mkPos 2 18)) TIdentifier [97]))] [];
+              Node KAstTerminal [73;110;105;116] 43 (mkRange (mkPos 2 21) (mkPos 2 25)) [(0, AT (mkTok 43 (mkRange (mkPos 2 21) (mkPos 2 25)) TIdentifier [73;110;105;116]))] []]]]]]].
+
+(* source text (aCase.god):
+     class aCase
+     proc P
+       var v : tVarByteArray
+       Purge(v(1))
+     endproc
+   real report (C16 classes) with the repaired checkers: PURGE:2:2:6:2:7:118
+   before the repair: (none) *)
+Definition w_argcall : node :=
+  Node KAstRoot [] 0 (mkRange (mkPos 0 0) (mkPos 0 0)) [] [
+    Node KAstClass [97;67;97;115;101] 0 (mkRange (mkPos 0 0) (mkPos 0 11)) [(1, AT (mkTok 6 (mkRange (mkPos 0 6) (mkPos 0 11)) TIdentifier [97;67;97;115;101])); (2, AL [])] [];
+    Node KAstProcedure [80] 12 (mkRange (mkPos 1 0) (mkPos 4 7)) [(5, AL [(mkTok 57 (mkRange (mkPos 4 0) (mkPos 4 7)) TEndProc [101;110;100;112;114;111;99])]); (6, AN 0)] [
+      Node KAstTerminal [80] 17 (mkRange (mkPos 1 5) (mkPos 1 6)) [(0, AT (mkTok 17 (mkRange (mkPos 1 5) (mkPos 1 6)) TIdentifier [80]))] [];
+      Node KAstMethodBody [109;101;116;104;111;100;95;98;111;100;121] 21 (mkRange (mkPos 2 2) (mkPos 3 13)) [] [
+        Node KAstLocalVariableDeclaration [118] 21 (mkRange (mkPos 2 2) (mkPos 2 23)) [(1, AT (mkTok 25 (mkRange (mkPos 2 6) (mkPos 2 7)) TIdentifier [118]))] [
+          Node KAstTypeBasic [116;86;97;114;66;121;116;101;65;114;114;97;121] 29 (mkRange (mkPos 2 10) (mkPos 2 23)) [(0, AT (mkTok 29 (mkRange (mkPos 2 10) (mkPos 2 23)) TIdentifier [116;86;97;114;66;121;116;101;65;114;114;97;121]))] []];
+        Node KAstMethodCall [80;117;114;103;101] 45 (mkRange (mkPos 3 2) (mkPos 3 13)) [] [
+          Node KAstMethodCall [118] 51 (mkRange (mkPos 3 8) (mkPos 3 12)) [] [
+            Node KAstTerminal [49] 53 (mkRange (mkPos 3 10) (mkPos 3 11)) [(0, AT (mkTok 53 (mkRange (mkPos 3 10) (mkPos 3 11)) TNumericLiteral [49]))] []]]]]].
+
+(* source text (aCase.god):
+     class aCase
+     proc P
+       var v : tVarByteArray
+       Purge(v[1])
+     endproc
+   real report (C16 classes) with the repaired checkers: PURGE:2:2:6:2:7:118
+   before the repair: (none) *)
+Definition w_argindex : node :=
+  Node KAstRoot [] 0 (mkRange (mkPos 0 0) (mkPos 0 0)) [] [
+    Node KAstClass [97;67;97;115;101] 0 (mkRange (mkPos 0 0) (mkPos 0 11)) [(1, AT (mkTok 6 (mkRange (mkPos 0 6) (mkPos 0 11)) TIdentifier [97;67;97;115;101])); (2, AL [])] [];
+    Node KAstProcedure [80] 12 (mkRange (mkPos 1 0) (mkPos 4 7)) [(5, AL [(mkTok 57 (mkRange (mkPos 4 0) (mkPos 4 7)) TEndProc [101;110;100;112;114;111;99])]); (6, AN 0)] [
+      Node KAstTerminal [80] 17 (mkRange (mkPos 1 5) (mkPos 1 6)) [(0, AT (mkTok 17 (mkRange (mkPos 1 5) (mkPos 1 6)) TIdentifier [80]))] [];
+      Node KAstMethodBody [109;101;116;104;111;100;95;98;111;100;121] 21 (mkRange (mkPos 2 2) (mkPos 3 13)) [] [
+        Node KAstLocalVariableDeclaration [118] 21 (mkRange (mkPos 2 2) (mkPos 2 23)) [(1, AT (mkTok 25 (mkRange (mkPos 2 6) (mkPos 2 7)) TIdentifier [118]))] [
+          Node KAstTypeBasic [116;86;97;114;66;121;116;101;65;114;114;97;121] 29 (mkRange (mkPos 2 10) (mkPos 2 23)) [(0, AT (mkTok 29 (mkRange (mkPos 2 10) (mkPos 2 23)) TIdentifier [116;86;97;114;66;121;116;101;65;114;114;97;121]))] []];
+        Node KAstMethodCall [80;117;114;103;101] 45 (mkRange (mkPos 3 2) (mkPos 3 13)) [] [
+          Node KAstArrayAccess [118] 51 (mkRange (mkPos 3 8) (mkPos 3 12)) [] [
+            Node KAstTerminal [118] 51 (mkRange (mkPos 3 8) (mkPos 3 9)) [(0, AT (mkTok 51 (mkRange (mkPos 3 8) (mkPos 3 9)) TIdentifier [118]))] [];
+            Node KAstTerminal [49] 53 (mkRange (mkPos 3 10) (mkPos 3 11)) [(0, AT (mkTok 53 (mkRange (mkPos 3 10) (mkPos 3 11)) TNumericLiteral [49]))] []]]]]].
+
+(* source text (aCase.god):
+     class aCase
+     proc Init
+       if x
+         inherited SELF.init(1)
+       endif
+     endproc
+     func Terminate return int4
+       x = inherited Self.TERMINATE
+     endfunc
+     proc NotifyInit
+       inherited self.NotifyInit.foo
+     endproc
+     proc NotifyTerminate
+       inherited self.x.NotifyTerminate
+     endproc
+     proc P
+       Purge(V)
+       var v : tVarByteArray
+       var u : tVarByteArray
+       var u : tVarByteArray
+       var w : tVarByteArray
+       var w : tVarByteArray
+       if x
+         OcsByteArray.purge(U, 2)
+       endif
+       Purge(1, w)
+     endproc
+   real report (C16 classes) with the repaired checkers: INH:2:12:5:12:20:78.111.116.105.102.121.84.101.114.109.105.110.97.116.101;INH:2:9:5:9:15:78.111.116.105.102.121.73.110.105.116;PURGE:2:20:6:20:7:119;PURGE:2:21:6:21:7:119
+   before the repair: INH:2:9:5:9:15:78.111.116.105.102.121.73.110.105.116;PURGE:2:17:6:17:7:118;PURGE:2:21:6:21:7:119 *)
+Definition w_forms : node :=
+  Node KAstRoot [] 0 (mkRange (mkPos 0 0) (mkPos 0 0)) [] [
+    Node KAstClass [97;67;97;115;101] 0 (mkRange (mkPos 0 0) (mkPos 0 11)) [(1, AT (mkTok 6 (mkRange (mkPos 0 6) (mkPos 0 11)) TIdentifier [97;67;97;115;101])); (2, AL [])] [];
+    Node KAstProcedure [73;110;105;116] 12 (mkRange (mkPos 1 0) (mkPos 5 7)) [(5, AL [(mkTok 64 (mkRange (mkPos 5 0) (mkPos 5 7)) TEndProc [101;110;100;112;114;111;99])]); (6, AN 0)] [
+      Node KAstTerminal [73;110;105;116] 17 (mkRange (mkPos 1 5) (mkPos 1 9)) [(0, AT (mkTok 17 (mkRange (mkPos 1 5) (mkPos 1 9)) TIdentifier [73;110;105;116]))] [];
+      Node KAstMethodBody [109;101;116;104;111;100;95;98;111;100;121] 24 (mkRange (mkPos 2 2) (mkPos 4 7)) [] [
+        Node KAstIfBlock [105;102] 24 (mkRange (mkPos 2 2) (mkPos 4 7)) [(5, AL [(mkTok 58 (mkRange (mkPos 4 2) (mkPos 4 7)) TEndIf [101;110;100;105;102])])] [
+          Node KAstConditionalBlock [99;111;110;100;95;98;108;111;99;107] 24 (mkRange (mkPos 2 2) (mkPos 3 26)) [] [
+            Node KAstTerminal [120] 27 (mkRange (mkPos 2 5) (mkPos 2 6)) [(0, AT (mkTok 27 (mkRange (mkPos 2 5) (mkPos 2 6)) TIdentifier [120]))] [];
+            Node KAstUnaryOp [105;110;104;101;114;105;116;101;100] 33 (mkRange (mkPos 3 4) (mkPos 3 26)) [(4, AT (mkTok 33 (mkRange (mkPos 3 4) (mkPos 3 13)) TInherited [105;110;104;101;114;105;116;101;100]))] [
+              Node KAstBinaryOp [46] 43 (mkRange (mkPos 3 14) (mkPos 3 26)) [(4, AT (mkTok 47 (mkRange (mkPos 3 18) (mkPos 3 19)) TDot [46]))] [
+                Node KAstTerminal [83;69;76;70] 43 (mkRange (mkPos 3 14) (mkPos 3 18)) [(0, AT (mkTok 43 (mkRange (mkPos 3 14) (mkPos 3 18)) TIdentifier [83;69;76;70]))] [];
+                Node KAstMethodCall [105;110;105;116] 48 (mkRange (mkPos 3 19) (mkPos 3 26)) [] [
+                  Node KAstTerminal [49] 53 (mkRange (mkPos 3 24) (mkPos 3 25)) [(0, AT (mkTok 53 (mkRange (mkPos 3 24) (mkPos 3 25)) TNumericLiteral [49]))] []]]]]]]];
+    Node KAstFunction [84;101;114;109;105;110;97;116;101] 72 (mkRange (mkPos 6 0) (mkPos 8 7)) [(5, AL [(mkTok 130 (mkRange (mkPos 8 0) (mkPos 8 7)) TEndFunc [101;110;100;102;117;110;99])]); (6, AN 0)] [
+      Node KAstTerminal [84;101;114;109;105;110;97;116;101] 77 (mkRange (mkPos 6 5) (mkPos 6 14)) [(0, AT (mkTok 77 (mkRange (mkPos 6 5) (mkPos 6 14)) TIdentifier [84;101;114;109;105;110;97;116;101]))] [];
+      Node KAstTypeBasic [105;110;116;52] 94 (mkRange (mkPos 6 22) (mkPos 6 26)) [(0, AT (mkTok 94 (mkRange (mkPos 6 22) (mkPos 6 26)) TIdentifier [105;110;116;52]))] [];
+      Node KAstMethodBody [109;101;116;104;111;100;95;98;111;100;121] 101 (mkRange (mkPos 7 2) (mkPos 7 30)) [] [
+        Node KAstBinaryOp [61] 101 (mkRange (mkPos 7 2) (mkPos 7 30)) [(4, AT (mkTok 103 (mkRange (mkPos 7 4) (mkPos 7 5)) TEquals [61]))] [
+          Node KAstTerminal [120] 101 (mkRange (mkPos 7 2) (mkPos 7 3)) [(0, AT (mkTok 101 (mkRange (mkPos 7 2) (mkPos 7 3)) TIdentifier [120]))] [];
+          Node KAstUnaryOp [105;110;104;101;114;105;116;101;100] 105 (mkRange (mkPos 7 6) (mkPos 7 30)) [(4, AT (mkTok 105 (mkRange (mkPos 7 6) (mkPos 7 15)) TInherited [105;110;104;101;114;105;116;101;100]))] [
+            Node KAstBinaryOp [46] 115 (mkRange (mkPos 7 16) (mkPos 7 30)) [(4, AT (mkTok 119 (mkRange (mkPos 7 20) (mkPos 7 21)) TDot [46]))] [
+              Node KAstTerminal [83;101;108;102] 115 (mkRange (mkPos 7 16) (mkPos 7 20)) [(0, AT (mkTok 115 (mkRange (mkPos 7 16) (mkPos 7 20)) TIdentifier [83;101;108;102]))] [];
+              Node KAstTerminal [84;69;82;77;73;78;65;84;69] 120 (mkRange (mkPos 7 21) (mkPos 7 30)) [(0, AT (mkTok 120 (mkRange (mkPos 7 21) (mkPos 7 30)) TIdentifier [84;69;82;77;73;78;65;84;69]))] []]]]]];
+    Node KAstProcedure [78;111;116;105;102;121;73;110;105;116] 138 (mkRange (mkPos 9 0) (mkPos 11 7)) [(5, AL [(mkTok 186 (mkRange (mkPos 11 0) (mkPos 11 7)) TEndProc [101;110;100;112;114;111;99])]); (6, AN 0)] [
+      Node KAstTerminal [78;111;116;105;102;121;73;110;105;116] 143 (mkRange (mkPos 9 5) (mkPos 9 15)) [(0, AT (mkTok 143 (mkRange (mkPos 9 5) (mkPos 9 15)) TIdentifier [78;111;116;105;102;121;73;110;105;116]))] [];
+      Node KAstMethodBody [109;101;116;104;111;100;95;98;111;100;121] 156 (mkRange (mkPos 10 2) (mkPos 10 31)) [] [
+        Node KAstUnaryOp [105;110;104;101;114;105;116;101;100] 156 (mkRange (mkPos 10 2) (mkPos 10 31)) [(4, AT (mkTok 156 (mkRange (mkPos 10 2) (mkPos 10 11)) TInherited [105;110;104;101;114;105;116;101;100]))] [
+          Node KAstBinaryOp [46] 166 (mkRange (mkPos 10 12) (mkPos 10 31)) [(4, AT (mkTok 181 (mkRange (mkPos 10 27) (mkPos 10 28)) TDot [46]))] [
+            Node KAstBinaryOp [46] 166 (mkRange (mkPos 10 12) (mkPos 10 27)) [(4, AT (mkTok 170 (mkRange (mkPos 10 16) (mkPos 10 17)) TDot [46]))] [
+              Node KAstTerminal [115;101;108;102] 166 (mkRange (mkPos 10 12) (mkPos 10 16)) [(0, AT (mkTok 166 (mkRange (mkPos 10 12) (mkPos 10 16)) TIdentifier [115;101;108;102]))] [];
+              Node KAstTerminal [78;111;116;105;102;121;73;110;105;116] 171 (mkRange (mkPos 10 17) (mkPos 10 27)) [(0, AT (mkTok 171 (mkRange (mkPos 10 17) (mkPos 10 27)) TIdentifier [78;111;116;105;102;121;73;110;105;116]))] []];
+            Node KAstTerminal [102;111;111] 182 (mkRange (mkPos 10 28) (mkPos 10 31)) [(0, AT (mkTok 182 (mkRange (mkPos 10 28) (mkPos 10 31)) TIdentifier [102;111;111]))] []]]]];
+    Node KAstProcedure [78;111;116;105;102;121;84;101;114;109;105;110;97;116;101] 194 (mkRange (mkPos 12 0) (mkPos 14 7)) [(5, AL [(mkTok 250 (mkRange (mkPos 14 0) (mkPos 14 7)) TEndProc [101;110;100;112;114;111;99])]); (6, AN 0)] [
+      Node KAstTerminal [78;111;116;105;102;121;84;101;114;109;105;110;97;116;101] 199 (mkRange (mkPos 12 5) (mkPos 12 20)) [(0, AT (mkTok 199 (mkRange (mkPos 12 5) (mkPos 12 20)) TIdentifier [78;111;116;105;102;121;84;101;114;109;105;110;97;116;101]))] [];
+      Node KAstMethodBody [109;101;116;104;111;100;95;98;111;100;121] 217 (mkRange (mkPos 13 2) (mkPos 13 34)) [] [
+        Node KAstUnaryOp [105;110;104;101;114;105;116;101;100] 217 (mkRange (mkPos 13 2) (mkPos 13 34)) [(4, AT (mkTok 217 (mkRange (mkPos 13 2) (mkPos 13 11)) TInherited [105;110;104;101;114;105;116;101;100]))] [
+          Node KAstBinaryOp [46] 227 (mkRange (mkPos 13 12) (mkPos 13 34)) [(4, AT (mkTok 233 (mkRange (mkPos 13 18) (mkPos 13 19)) TDot [46]))] [
+            Node KAstBinaryOp [46] 227 (mkRange (mkPos 13 12) (mkPos 13 18)) [(4, AT (mkTok 231 (mkRange (mkPos 13 16) (mkPos 13 17)) TDot [46]))] [
+              Node KAstTerminal [115;101;108;102] 227 (mkRange (mkPos 13 12) (mkPos 13 16)) [(0, AT (mkTok 227 (mkRange (mkPos 13 12) (mkPos 13 16)) TIdentifier [115;101;108;102]))] [];
+              Node KAstTerminal [120] 232 (mkRange (mkPos 13 17) (mkPos 13 18)) [(0, AT (mkTok 232 (mkRange (mkPos 13 17) (mkPos 13 18)) TIdentifier [120]))] []];
+            Node KAstTerminal [78;111;116;105;102;121;84;101;114;109;105;110;97;116;101] 234 (mkRange (mkPos 13 19) (mkPos 13 34)) [(0, AT (mkTok 234 (mkRange (mkPos 13 19) (mkPos 13 34)) TIdentifier [78;111;116;105;102;121;84;101;114;109;105;110;97;116;101]))] []]]]];
+    Node KAstProcedure [80] 258 (mkRange (mkPos 15 0) (mkPos 26 7)) [(5, AL [(mkTok 454 (mkRange (mkPos 26 0) (mkPos 26 7)) TEndProc [101;110;100;112;114;111;99])]); (6, AN 0)] [
+      Node KAstTerminal [80] 263 (mkRange (mkPos 15 5) (mkPos 15 6)) [(0, AT (mkTok 263 (mkRange (mkPos 15 5) (mkPos 15 6)) TIdentifier [80]))] [];
+      Node KAstMethodBody [109;101;116;104;111;100;95;98;111;100;121] 267 (mkRange (mkPos 16 2) (mkPos 25 13)) [] [
+        Node KAstMethodCall [80;117;114;103;101] 267 (mkRange (mkPos 16 2) (mkPos 16 10)) [] [
+          Node KAstTerminal [86] 273 (mkRange (mkPos 16 8) (mkPos 16 9)) [(0, AT (mkTok 273 (mkRange (mkPos 16 8) (mkPos 16 9)) TIdentifier [86]))] []];
+        Node KAstLocalVariableDeclaration [118] 278 (mkRange (mkPos 17 2) (mkPos 17 23)) [(1, AT (mkTok 282 (mkRange (mkPos 17 6) (mkPos 17 7)) TIdentifier [118]))] [
+          Node KAstTypeBasic [116;86;97;114;66;121;116;101;65;114;114;97;121] 286 (mkRange (mkPos 17 10) (mkPos 17 23)) [(0, AT (mkTok 286 (mkRange (mkPos 17 10) (mkPos 17 23)) TIdentifier [116;86;97;114;66;121;116;101;65;114;114;97;121]))] []];
+        Node KAstLocalVariableDeclaration [117] 302 (mkRange (mkPos 18 2) (mkPos 18 23)) [(1, AT (mkTok 306 (mkRange (mkPos 18 6) (mkPos 18 7)) TIdentifier [117]))] [
+          Node KAstTypeBasic [116;86;97;114;66;121;116;101;65;114;114;97;121] 310 (mkRange (mkPos 18 10) (mkPos 18 23)) [(0, AT (mkTok 310 (mkRange (mkPos 18 10) (mkPos 18 23)) TIdentifier [116;86;97;114;66;121;116;101;65;114;114;97;121]))] []];
+        Node KAstLocalVariableDeclaration [117] 326 (mkRange (mkPos 19 2) (mkPos 19 23)) [(1, AT (mkTok 330 (mkRange (mkPos 19 6) (mkPos 19 7)) TIdentifier [117]))] [
+          Node KAstTypeBasic [116;86;97;114;66;121;116;101;65;114;114;97;121] 334 (mkRange (mkPos 19 10) (mkPos 19 23)) [(0, AT (mkTok 334 (mkRange (mkPos 19 10) (mkPos 19 23)) TIdentifier [116;86;97;114;66;121;116;101;65;114;114;97;121]))] []];
+        Node KAstLocalVariableDeclaration [119] 350 (mkRange (mkPos 20 2) (mkPos 20 23)) [(1, AT (mkTok 354 (mkRange (mkPos 20 6) (mkPos 20 7)) TIdentifier [119]))] [
+          Node KAstTypeBasic [116;86;97;114;66;121;116;101;65;114;114;97;121] 358 (mkRange (mkPos 20 10) (mkPos 20 23)) [(0, AT (mkTok 358 (mkRange (mkPos 20 10) (mkPos 20 23)) TIdentifier [116;86;97;114;66;121;116;101;65;114;114;97;121]))] []];
+        Node KAstLocalVariableDeclaration [119] 374 (mkRange (mkPos 21 2) (mkPos 21 23)) [(1, AT (mkTok 378 (mkRange (mkPos 21 6) (mkPos 21 7)) TIdentifier [119]))] [
+          Node KAstTypeBasic [116;86;97;114;66;121;116;101;65;114;114;97;121] 382 (mkRange (mkPos 21 10) (mkPos 21 23)) [(0, AT (mkTok 382 (mkRange (mkPos 21 10) (mkPos 21 23)) TIdentifier [116;86;97;114;66;121;116;101;65;114;114;97;121]))] []];
+        Node KAstIfBlock [105;102] 398 (mkRange (mkPos 22 2) (mkPos 24 7)) [(5, AL [(mkTok 434 (mkRange (mkPos 24 2) (mkPos 24 7)) TEndIf [101;110;100;105;102])])] [
+          Node KAstConditionalBlock [99;111;110;100;95;98;108;111;99;107] 398 (mkRange (mkPos 22 2) (mkPos 23 28)) [] [
+            Node KAstTerminal [120] 401 (mkRange (mkPos 22 5) (mkPos 22 6)) [(0, AT (mkTok 401 (mkRange (mkPos 22 5) (mkPos 22 6)) TIdentifier [120]))] [];
+            Node KAstBinaryOp [46] 407 (mkRange (mkPos 23 4) (mkPos 23 28)) [(4, AT (mkTok 419 (mkRange (mkPos 23 16) (mkPos 23 17)) TDot [46]))] [
+              Node KAstTerminal [79;99;115;66;121;116;101;65;114;114;97;121] 407 (mkRange (mkPos 23 4) (mkPos 23 16)) [(0, AT (mkTok 407 (mkRange (mkPos 23 4) (mkPos 23 16)) TIdentifier [79;99;115;66;121;116;101;65;114;114;97;121]))] [];
+              Node KAstMethodCall [112;117;114;103;101] 420 (mkRange (mkPos 23 17) (mkPos 23 28)) [] [
+                Node KAstTerminal [85] 426 (mkRange (mkPos 23 23) (mkPos 23 24)) [(0, AT (mkTok 426 (mkRange (mkPos 23 23) (mkPos 23 24)) TIdentifier [85]))] [];
+                Node KAstTerminal [50] 429 (mkRange (mkPos 23 26) (mkPos 23 27)) [(0, AT (mkTok 429 (mkRange (mkPos 23 26) (mkPos 23 27)) TNumericLiteral [50]))] []]]]];
+        Node KAstMethodCall [80;117;114;103;101] 442 (mkRange (mkPos 25 2) (mkPos 25 13)) [] [
+          Node KAstTerminal [49] 448 (mkRange (mkPos 25 8) (mkPos 25 9)) [(0, AT (mkTok 448 (mkRange (mkPos 25 8) (mkPos 25 9)) TNumericLiteral [49]))] [];
+          Node KAstTerminal [119] 451 (mkRange (mkPos 25 11) (mkPos 25 12)) [(0, AT (mkTok 451 (mkRange (mkPos 25 11) (mkPos 25 12)) TIdentifier [119]))] []]]]].
 
